@@ -87,3 +87,12 @@ Theorem hurry_up_makes_data_known : forall c s id argv r r',
   f_host r' = true /\ f_ident r' = true /\ f_nick r' = true /\ f_user r' = true.
 Proof. exact QueryWhen.hurry_up_makes_data_known. Qed.
 Print Assumptions hurry_up_makes_data_known.
+Require D30.
+
+(* OPEN FINDING D30 (known_findings.txt; not repaired): "not skipped" FAILS when a released slot is taken by a new service while a
+   client still carries the old occupant's "already asked" bit.  The statements above are about SLOTS; a slot is not a service once
+   reloads release and refill it.  D30.d30_statement: the model's run (= the daemon's) on the history of D30.v, whose step "5 U"
+   prints the accept line only - no query for the configured dronecheck d.svc, all of whose data are known. *)
+Theorem not_skipped_fails_across_a_reused_slot_refuted : D30.d30_statement.
+Proof. exact D30.d30_refutes. Qed.
+Print Assumptions not_skipped_fails_across_a_reused_slot_refuted.
